@@ -25,8 +25,7 @@ def handle (j : Json) : R Json := do
   let fn ← (← j.getObjVal? "fn").getStr?
   if fn == "union_many" then
     let arrs ← (← (← j.getObjVal? "arrays").getArr?).toList.mapM (fun a => do pure (← natList a).toArray)
-    let total := (arrs.map (·.size)).foldl (· + ·) 0
-    return jKern (KernGen.set_union_merge_many junk (total + 1) arrs)
+    return jKern (KernGen.set_union_merge_many junk ((Kern.concatAll (arrs.filter fun a => a.size ≠ 0)).size + 1) arrs)
   let L := (← natList (← j.getObjVal? "l")).toArray
   let Rr := (← natList (← j.getObjVal? "r")).toArray
   match fn with
